@@ -174,7 +174,11 @@ func c11Script(ops []slOp) string {
 		case "assign":
 			fmt.Fprintf(&b, "\t%s = %s\n", n[op.V], n[op.Src])
 		case "sub":
-			fmt.Fprintf(&b, "\t%s = %s[%d:%d]\n", n[op.V], n[op.Src], op.I, op.J)
+			if op.I < 0 || op.J < 0 {
+				fmt.Fprintf(&b, "\tlo%d, hi%d := %d, %d\n\t%s = %s[lo%d:hi%d]\n", k, k, op.I, op.J, n[op.V], n[op.Src], k, k)
+			} else {
+				fmt.Fprintf(&b, "\t%s = %s[%d:%d]\n", n[op.V], n[op.Src], op.I, op.J)
+			}
 		case "write":
 			fmt.Fprintf(&b, "\t%s[%d] = %d\n", n[op.V], op.I, op.X)
 		case "read":
@@ -268,7 +272,13 @@ func c11Concretize(r *rand.Rand, ops []slOp, failLast bool) []slOp {
 		switch op.Op {
 		case "sub":
 			n := len(ref.v[op.Src])
-			if last {
+			if last && r.Intn(3) == 0 {
+				// a bound that is negative at run time (held in a variable: Go rejects a negative constant when compiling)
+				op.I, op.J = 0, -1-r.Intn(2)
+				if r.Intn(2) == 0 && n >= 1 {
+					op.I, op.J = -1, n
+				}
+			} else if last {
 				op.I, op.J = 0, n+1+r.Intn(2)
 				if cap(ref.v[op.Src]) >= op.J { // Go allows slicing up to the capacity: make it really invalid
 					op.I, op.J = n+1, n+1
